@@ -91,6 +91,8 @@ def pattern_layout():
             ('S2', [M('report', 'S2.report'), M('one', 'S2.one'), M('f1x', 'S2.f1x')]),
             ('S3', [MP('item', 'S3.item', [{'address': '/items/<id>'}], args=[('id', U)]),
                     MP('items', 'S3.items', [{'address': '/items'}]),
+                    # a literal address that the placeholder pattern above matches as well: the literal one wins
+                    MP('itemsall', 'S3.itemsall', [{'address': '/items/all'}]),
                     MP('delonly', 'S3.delonly', [{'address': '/submit', 'verb': 'DELETE'}])])]
 
 
@@ -104,13 +106,16 @@ def pattern_reference(services, verb, path):
     of a pattern completely (and its verb, if the pattern names one) runs that pattern's method; otherwise the last path
     segment names the method"""
     import re
+    hits = []
     for sv in services:
         for m in sv[1]:
             for p in m.get('patterns') or []:
                 if p.get('verb') and not re.fullmatch(p['verb'], verb):
                     continue
                 if pattern_regex(p['address']).match(path):
-                    return m['key']
+                    hits.append(('<' in p['address'], m['key']))
+    if hits:
+        return sorted(hits)[0][1]
     last = path.split('/')[-1]
     for sv in services:
         for m in sv[1]:
@@ -190,6 +195,38 @@ def run_patterns(shard, res, only):
                         V('not-found-status', (o.status or '')[:3], 'HTTP status %s for a path that matches nothing' % o.status)
                     else:
                         res['outcomes']['pattern-not-found'] = res['outcomes'].get('pattern-not-found', 0) + 1
+
+
+def run_pattern_histories(shard, res, only):
+    """every ordered pair of pattern addresses as a two-request history on a fresh transport object: what the first request
+    matched must not decide what the second one runs"""
+    from spyne.server.wsgi import WsgiApplication
+    services = pattern_layout()
+    exact = sorted(set(p['address'].replace('<id>', '42') for sv in services for m in sv[1] for p in m.get('patterns') or []))
+    b = spec.build(program_of(services))
+    app = spec.make_app(b, harness.make_proto('http'), harness.make_proto('http'))
+    res['cov']['programs'] += 1
+    for p1, p2 in itertools.product(exact, repeat=2):
+        key = ['history', p1, p2]
+        if only is not None and only != key:
+            continue
+        wsgi = WsgiApplication(app)
+        ran = []
+        for path in (p1, p2):
+            b.rec.reset()
+            for k in b.methods:
+                b.rec.script[k] = ('ret', 1)
+            o = drv.call_wsgi(wsgi, drv.environ('GET', path, '', b'', content_type=None, content_length=None))
+            ran.append([c[0] for c in b.rec.calls])
+        res['evaluations'] += 1
+        want = [[x] if x is not None else [] for x in (pattern_reference(services, 'GET', p1), pattern_reference(services, 'GET', p2))]
+        if ran != want:
+            res['violations'].append({'sig': 'C11|wrong-function|http-pattern-history|%s' % ('second' if ran[0] == want[0] else 'first'),
+                                      'what': '[HttpPattern routing] GET %s then GET %s on one transport ran %s, expected %s' % (p1, p2, ran, want),
+                                      'case': {'shard': shard, 'only': key}, 'count': 1})
+        else:
+            res['nontrivial'] += 1
+            res['outcomes']['pattern-history'] = res['outcomes'].get('pattern-history', 0) + 1
 
 
 def public_name(m):
@@ -280,6 +317,7 @@ def shards(tier):
             out.append({'kind': 'layout', 'li': li, 'channel': ch, 'tier': tier})
     out.append({'kind': 'collisions', 'tier': tier})
     out.append({'kind': 'patterns', 'tier': tier})
+    out.append({'kind': 'pattern-histories', 'tier': tier})
     return out
 
 
@@ -332,6 +370,10 @@ def run_shard(shard, only=None):
                                           'what': 'application with two methods answering to the same name was constructed: %s' % cid,
                                           'case': {'shard': shard, 'only': key}, 'count': 1})
         return res
+    if shard['kind'] == 'pattern-histories':
+        run_pattern_histories(shard, res, only)
+        from vf.props.c01 import compress
+        return compress(res)
     if shard['kind'] == 'patterns':
         run_patterns(shard, res, only)
         from vf.props.c01 import compress
